@@ -3,7 +3,7 @@ Self-test of harness/facts_zonal.py (not part of ./check): behaviour-preserving 
 extractors match must leave every generated fact unchanged (or, for the translated expressions / programs, change
 it to a term the theorems still accept -- marked `~`), edits that change behaviour (prefix `X-`) must change a fact.
 
-  /venv/bin/python harness/facts_zonal_selftest.py [name ...]        (reads /repo or $XRS_REPO, writes nothing there)
+  /venv/bin/python harness/selftest_facts_zonal.py [name ...]        (reads /repo or $XRS_REPO, writes nothing there)
   KEEP=<dir> ... <name>    leave the edited copy in <dir> (then: translate.py --repo <dir>; lk build XrsVerif.Props.C0x)
 """
 import ast
